@@ -209,7 +209,7 @@ class AsynctelnetTransport(AsyncTransport):
                     self._raw_buf += buf
                 else:
                     self._cooked_buf += buf
-            except EOFError as exc:
+            except (EOFError, OSError) as exc:
                 raise ScrapliConnectionError(
                     "encountered EOF reading from transport; typically means the device closed the "
                     "connection"
@@ -234,4 +234,9 @@ class AsynctelnetTransport(AsyncTransport):
     def write(self, channel_input: bytes) -> None:
         if not self.stdin:
             raise ScrapliConnectionNotOpened
-        self.stdin.write(channel_input)
+        try:
+            self.stdin.write(channel_input)
+        except OSError as exc:
+            raise ScrapliConnectionError(
+                "failed writing to transport; typically means the device closed the connection"
+            ) from exc
